@@ -220,6 +220,9 @@ type World struct {
 	trace []string
 	alias      map[string]string
 	preferred  *vrt.Thread
+	batching   bool
+	slack      int64 // timing slack (ns) the oracles grant when a scheduling deviation delayed a thread
+	devSite    string // where the deviation of this execution was applied (thread + park site)
 	stopRequested  bool
 	stopPhase      string
 	stopReturned   bool
@@ -361,6 +364,9 @@ func (w *World) accept(addr string, server *vnet.VConn) bool {
 // settle runs system threads (lowest id first, each until it blocks) until none is enabled and
 // the peers have nothing more to react to automatically.
 func (w *World) settle() {
+	if w.batching {
+		return
+	}
 	for {
 		for {
 			en := w.S.Enabled()
